@@ -322,6 +322,8 @@ def run(tier, seed, replay_case=None):
     rep = core.Report(PROP, tier, seed)
     core.lean_build()
     aud = core.audit(PROP)
+    from vh import bridge
+    bridge.check(rep, PROP)
     total = 3000 if tier == 'quick' else 50000
     items = []
     corpus = core.load_corpus(PROP) if replay_case is None else [replay_case]
